@@ -84,6 +84,7 @@ type Config struct {
 	Real       func() service.UDPMetrics
 	FailSocket int // the n-th outbound socket creation fails (0 = never)
 	Validator  string // "" default policy | "allow-all"
+	Hosts      map[string][]string // extra resolver entries
 }
 
 func DefaultKeys() []*world.Key {
@@ -114,6 +115,13 @@ func Run(cfg Config, ops []Op, tr *Trace) {
 	vw.Hosts["dns.example"] = []net.IP{net.ParseIP("93.184.216.34")}
 	vw.Hosts["private.example"] = []net.IP{net.ParseIP("10.0.0.7")}
 	vw.UDPSocketFailAt = cfg.FailSocket
+	for h, as := range cfg.Hosts {
+		var ips []net.IP
+		for _, a := range as {
+			ips = append(ips, net.ParseIP(a))
+		}
+		vw.Hosts[h] = ips
+	}
 	hk.ResetLogs()
 	var real service.UDPMetrics
 	if cfg.Real != nil {
